@@ -15,6 +15,8 @@
 mod decode_gen;
 #[path = "../decode_util.rs"]
 mod decode_util;
+#[path = "../tree.rs"]
+mod tree;
 use decode_gen::*;
 use decode_util::*;
 use wacv::*;
@@ -165,6 +167,12 @@ fn run_case(out: &mut Out, case: &Case) {
             out.fail(&id, &format!("TypeEncoder::component: panic: {}", p.chars().take(80).collect::<String>()), &p);
         }
         Ok(r) => {
+            if r.reflexive != Some(true) {
+                // the reference validator does not accept the component as a subtype of a copy
+                // of itself (or panics in its subtype check): it cannot judge this shape
+                out.count(if r.reflexive.is_none() { "oracle:validator-panic-on-self" } else { "oracle:validator-not-reflexive-on-this-shape" });
+                return;
+            }
             if let Some(e) = &r.encode_error {
                 out.count("oracle:encode-error");
                 out.fail(&id, &format!("TypeEncoder::component: error: {}", e.chars().take(80).collect::<String>()), e);
@@ -173,12 +181,6 @@ fn run_case(out: &mut Out, case: &Case) {
             if let Err(e) = &r.composition_valid {
                 out.count("oracle:composition-invalid");
                 out.fail(&id, &format!("written unlocked-dep component type is invalid: {}", e.chars().take(100).collect::<String>()), e);
-                return;
-            }
-            if r.reflexive != Some(true) {
-                // the reference validator does not accept the component as a subtype of a copy
-                // of itself (or panics): it cannot judge this shape
-                out.count(if r.reflexive.is_none() { "oracle:validator-panic-on-self" } else { "oracle:validator-not-reflexive-on-this-shape" });
                 return;
             }
             if !r.extra_imports.is_empty() {
